@@ -320,7 +320,7 @@ func c29Generated(c *fw.Ctx, race bool) {
 	if c.Case == 0 && len(inputs) > 0 {
 		c.Sample(map[string]any{"grammar": gs[0].c.Pkg.Text, "input_tokens": len(inputs[0].pos), "input": clipText(inputs[0].text, 300)})
 	}
-	res, err := genrun.Run(bin, c.WorkDir, jobs, 120)
+	res, err := genrun.Run(bin, c.WorkDir, jobs, 600)
 	if err != nil {
 		c.Violate("harness/runner/"+fw.Skeleton(err.Error()), err.Error(), nil)
 		return
@@ -390,7 +390,7 @@ func c29Generated(c *fw.Ctx, race bool) {
 		add(in, "before-start", genrun.Job{CancelAtEvent: -1}, 0)
 		add(in, "async", genrun.Job{AsyncCancel: 1 + r.Intn(1500)}, 0)
 	}
-	res2, err := genrun.Run(bin, c.WorkDir, jobs, 120)
+	res2, err := genrun.Run(bin, c.WorkDir, jobs, 600)
 	if err != nil {
 		c.Violate("harness/runner/"+fw.Skeleton(err.Error()), err.Error(), nil)
 		return
